@@ -303,12 +303,15 @@ func runC20(r *vk.Run) {
 			}
 		}
 		_, sk := modelSanitise(k)
-		if sk == "msg" || sk == "app" {
-			c.Count("excluded_collision", 1)
-			return
-		}
 		doc, _ := json.Marshal(map[string]string{k: "val-" + fmt.Sprint(c.Idx)})
-		mq := &MemQuerier{Recs: []Rec{{TS: 1700000000e9, Line: string(doc), Labels: map[string]string{"app": "x"}}}, ErrAfter: -1}
+		labels := map[string]string{"app": "x"}
+		if sk != "app" && c.Idx%3 == 1 {
+			// the record already carries a label of the sanitised name (a Docker label a.b next to the JSON key
+			// a_b, a built-in name): the key still becomes THAT label, with the member's value
+			labels[sk] = "old"
+			c.Count("json_keys_meeting_an_existing_label", 1)
+		}
+		mq := &MemQuerier{Recs: []Rec{{TS: 1700000000e9, Line: string(doc), Labels: labels}}, ErrAfter: -1}
 		res, err := evalQuery(mq, `{app="x"} | json`, EvalP{Start: 1600000000e9, End: 1800000000e9, Step: time.Second, Limit: -1})
 		c.Eval(1)
 		c.Count("json_keys", 1)
@@ -328,6 +331,12 @@ func runC20(r *vk.Run) {
 			c.Fail("", fmt.Sprintf("JSON key %q not exposed as label %q", k, sk), detail)
 			return
 		}
+		for name, v := range lbl {
+			if name != sk && v == "val-"+fmt.Sprint(c.Idx) {
+				c.Fail("", fmt.Sprintf("JSON key %q exposed under %q, not (only) under its sanitised name %q", k, name, sk), detail)
+				return
+			}
+		}
 		if _, bad := lbl["__error__"]; bad {
 			c.Fail("", "well-formed JSON flagged __error__", detail)
 			return
@@ -341,4 +350,5 @@ func runC20(r *vk.Run) {
 	r.Require("selections_nonempty", 50)
 	r.Require("function_name_as_label", 20)
 	r.Require("docker_label_named_like_builtin", 20)
+	r.Require("json_keys_meeting_an_existing_label", 300)
 }
